@@ -464,6 +464,11 @@ pub fn tamper<B: Backend>(rec: &mut Recorder, st: &mut Stats, cfg: &Cfg) {
             q.extend(vec![0u8; k]);
             pie_unwrap::<B, Local>(rec, st, &q, with, json!({"cls":"extend","k":k}));
         }
+        if !only_relabel {
+            for (q, note) in structural_variants(&blob) {
+                pie_unwrap::<B, Local>(rec, st, &q, with, note);
+            }
+        }
         pie_unwrap::<B, Local>(rec, st, &blob, other_with, json!({"cls":"other-key"}));
         pie_unwrap::<B, Secret>(rec, st, &blob, with, json!({"cls":"relabel","to":"secret"}));
         relabel_all(rec, st, "pie", "local", &blob, with, &w);
@@ -517,6 +522,11 @@ pub fn tamper<B: Backend>(rec: &mut Recorder, st: &mut Stats, cfg: &Cfg) {
             q.extend(vec![0u8; k]);
             pw_unwrap::<B, Local>(rec, st, &q, pass, json!({"cls":"extend","k":k}));
         }
+        if !only_relabel {
+            for (q, note) in structural_variants(&blob) {
+                pw_unwrap::<B, Local>(rec, st, &q, pass, note);
+            }
+        }
         for p2 in [&b""[..], &b"correct horse battery stapl"[..], &b"correct horse battery staple\0"[..], &b"Correct horse battery staple"[..]] {
             pw_unwrap::<B, Local>(rec, st, &blob, p2, json!({"cls":"other-password"}));
         }
@@ -562,11 +572,42 @@ pub fn tamper<B: Backend>(rec: &mut Recorder, st: &mut Stats, cfg: &Cfg) {
             q.extend(vec![0u8; k]);
             pke_unseal::<B>(rec, st, &q, &r0.secret, json!({"cls":"extend","k":k}));
         }
+        if !only_relabel {
+            for (q, note) in structural_variants(&blob) {
+                pke_unseal::<B>(rec, st, &q, &r0.secret, note);
+            }
+        }
         if r1.secret != r0.secret {
             pke_unseal::<B>(rec, st, &blob, &r1.secret, json!({"cls":"other-recipient"}));
         }
         relabel_all(rec, st, "seal", "local", &blob, &r0.secret, &w);
     }
+}
+
+/// length-changing corruptions other than cutting the end: bytes dropped from the front or the middle, junk inserted
+fn structural_variants(blob: &[u8]) -> Vec<(Vec<u8>, Value)> {
+    let mut v = Vec::new();
+    for n in [1usize, 8, 16, 24, 32, 48, 64, 96] {
+        if n < blob.len() {
+            v.push((blob[n..].to_vec(), json!({"cls":"truncate-front","dropped":n})));
+        }
+    }
+    for at in [16usize, 32, 48, 64] {
+        for n in [16usize, 32, 48] {
+            if at + n <= blob.len() {
+                let mut q = blob[..at].to_vec();
+                q.extend_from_slice(&blob[at + n..]);
+                v.push((q, json!({"cls":"drop-middle","at":at,"n":n})));
+            }
+        }
+        if at <= blob.len() {
+            let mut q = blob[..at].to_vec();
+            q.extend(vec![0x5au8; 32]);
+            q.extend_from_slice(&blob[at..]);
+            v.push((q, json!({"cls":"insert-middle","at":at})));
+        }
+    }
+    v
 }
 
 /// the same blob bytes under the parser of every other version (and, for seal, that version's recipient key)
